@@ -309,6 +309,11 @@ class Sim:
         fn = frame.f_code.co_filename
         for p in self.trace_files:
             if fn.startswith(p):
+                # code that only runs the first time in a process - a module body executed
+                # by an import, anything numba evaluates while compiling - is not traced:
+                # its line events would draw from the PRNG in the first run only
+                if frame.f_code.co_name == "<module>" or _once_only_on_stack(frame):
+                    return None
                 return self._trace_line
         return None
 
@@ -432,6 +437,24 @@ class Sim:
 # baton.  A line of spatialpandas reached from inside such code is not a pre-emption point.
 _LOCKED = ("/dask/tokenize.py", "/numba/", "/pyarrow/", "/logging/", "importlib._bootstrap",
            "<frozen importlib")
+
+
+_ONCE = ("/numba/", "importlib._bootstrap", "<frozen importlib")
+
+
+def _once_only_on_stack(frame, limit=120):
+    f = frame.f_back
+    n = 0
+    while f is not None and n < limit:
+        fn = f.f_code.co_filename
+        for pat in _ONCE:
+            if pat in fn:
+                return True
+        if fn.endswith("dsim/core.py") and f.f_code.co_name == "_thread_main":
+            return False
+        f = f.f_back
+        n += 1
+    return False
 
 
 def _lock_holder_on_stack(frame, limit=120):
